@@ -351,6 +351,9 @@ def run_groups(ctx, F_classes, ncases, given=None, rng=None, stream='groups'):
         off = rng.choice([0, 0, 1, 3, 7, rng.randint(0, 40)])
         if given is not None:
             off = goff
+            # a large case is never spent on a label with the wrong number of placeholders (creation would be refused)
+            if sh['kind'] != 'single':
+                pieces = [rand_piece(rng) for _ in range(arity_of(sh) + 1)]
             if rng.random() < 0.7:
                 pieces = {0: pieces, 1: ['p_{', '}'], 2: ['e(', ',', ')']}.get(arity_of(sh), pieces)
         descr = dict(cls=cname, shape=sh, label_pieces=pieces, label=py_fmt(pieces), anonymous_before=off)
